@@ -1,4 +1,7 @@
+import GohbaseVerif.Drive.C01
 import GohbaseVerif.Drive.C07
+import GohbaseVerif.Drive.C08
+import GohbaseVerif.Drive.C15
 import GohbaseVerif.Drive.C10
 import GohbaseVerif.Drive.C16
 import GohbaseVerif.Drive.C17
@@ -13,6 +16,9 @@ open GV
 
 def dispatch (line : String) : String :=
   match (line.splitOn " ").filter (· ≠ "") with
+  | "c01" :: rest => Drive.C01.handle rest
+  | "c08" :: rest => Drive.C08.handle rest
+  | "c15" :: rest => Drive.C15.handle rest
   | "c07" :: rest => Drive.C07.handle rest
   | "c10" :: rest => Drive.C10.handle rest
   | "c16" :: rest => Drive.C16.handle rest
@@ -21,6 +27,7 @@ def dispatch (line : String) : String :=
   | "c18" :: rest => Drive.Conn.handle "c18" rest
   | "c02" :: rest => Drive.Conn.handle "c02" rest
   | "c04" :: rest => Drive.Sim.handle "c04" rest
+  | "c01w" :: rest => Drive.Sim.handle "c04" rest
   | "c20" :: rest => Drive.Sim.handle "c20" rest
   | "c09" :: rest => Drive.Sim.handle "c09" rest
   | "c13" :: rest => Drive.Sim.handle "c13" rest
